@@ -29,6 +29,8 @@ for i in ids:
         text = text + " " + R8[i]
     if i in globals().get('R9', {}):
         text = text + " " + R9[i]
+    if i in globals().get('R10', {}):
+        text = text + " " + R10[i]
     checks.append({
         "property_id": i,
         "quick_cmd": f"bin/vcheck -property {i} -tier quick",
